@@ -280,6 +280,30 @@ def worker(case, led):
                               key + ("sbond", ni, cplx), {"complex_state": bool(cplx)}, dict(rep, node=ni))
             except Exception as e:
                 led.check(False, "post:TTNS.calc_bond_entropy:total", "TTNS.calc_bond_entropy", f"raised {type(e).__name__}: {e}", key + ("sbond", cplx), {}, rep)
+            # call-history independence: measure, change the SAME object in place (rescale, move the norm into the prefactor), measure again - the second
+            # measurement is that of the state the object now holds
+            try:
+                st2 = st.copy()
+                st2.calc_1dof_rdm()
+                if len(order) >= 2:
+                    st2.calc_2dof_rdm((dofs[0], dofs[-1]))
+                for how_, act in (("scale(-0.5, inplace=True)", lambda x_: x_.scale(-0.5, inplace=True)), ("normalize('ttns_norm_to_coeff')", lambda x_: x_.normalize("ttns_norm_to_coeff")),
+                                  ("scale(2j, inplace=True)", lambda x_: x_.scale(2j, inplace=True))):
+                    act(st2)
+                    # (the tree observables - todense, expectation, RDMs - are those of the tensors; the separate prefactor `coeff` only keeps the norm that
+                    # normalize(...) took out, see the todense clause above)
+                    v2 = T.dense_ttns(st2, order, with_coeff=False)
+                    r_again = st2.calc_1dof_rdm()
+                    ok = all(close(np.asarray(r_again[bb.dofs[0]]), rdm_ref(v2, dims, [bi]), 1e-9) for bi, bb in enumerate(order))
+                    if len(order) >= 2:
+                        ref2 = rdm_ref(v2, dims, [0, len(order) - 1])
+                        got2 = np.asarray(st2.calc_2dof_rdm((dofs[0], dofs[-1]))[(dofs[0], dofs[-1])])
+                        ok = ok and got2.size == ref2.size and close(got2.reshape(ref2.shape), ref2, 1e-9)
+                    led.check(ok, "post:TTNS.calc_1dof_rdm:second_measurement_after_an_in_place_change", "TTNS.calc_1dof_rdm",
+                              f"after {how_} on the measured object its RDMs are not those of the state it now holds (trace of the first: {np.trace(np.asarray(r_again[order[0].dofs[0]])):.6f}, "
+                              f"dense norm^2 {np.vdot(v2, v2).real:.6f})", key + ("rdm-history", how_, cplx), {"complex_state": bool(cplx), "change": how_}, dict(rep, history=f"measure; {how_}; measure"))
+            except Exception as e:
+                led.check(False, "post:TTNS.calc_1dof_rdm:total", "TTNS.calc_1dof_rdm", f"measure / change in place / measure raised {type(e).__name__}: {e}", key + ("rdm-history", cplx), {}, rep)
             led.check(close(T.dense_ttns(st, order), v, 1e-10), "frame:TTNS.calc_*:state_unchanged", "TTNS.calc_bond_entropy", "the observables changed the state they were computed from", key + ("obs-frame", cplx), {}, rep)
     # ---- chain -> tree conversion preserves the state
     if flavour in ("spinqn", "holstein"):
